@@ -130,12 +130,20 @@ def batch_differential(dense_proj, cuda_proj, cells, ys, policies=((1, 1), (2, 0
     try:
         exe_d = build.build_ode_driver(dense_proj, sanitize=sanitize)
     except BuildError as e:
-        return [("cuda-batch/dense-reference-does-not-compile", str(e)[-300:])], info
+        # closure of the generated sources is C10's subject (e.g. the documented precondition that a UCLCHEM network
+        # contains H2): without an executable reference there is nothing to compare
+        info["cuda_skipped_reference_does_not_compile"] = 1
+        return [], info
     try:
         exe_c = build_cuda_driver(cuda_proj, sanitize=sanitize)
     except BuildError as e:
         diag = next((l for l in str(e).splitlines() if "error" in l), "error: ?")
-        return [(f"cuda-batch/does-not-compile/{build.classify_diag(diag)}", f"cusparse sources (host emulation): {str(e)[-500:]}")], info
+        cls = build.classify_diag(diag)
+        name = cls.split(":", 1)[1] if ":" in cls else ""
+        if cls.startswith(("undeclared:", "no-member:", "redefinition:")) and not name.startswith(("cuda", "cu", "__", "atomic", "SUN", "N_V")):
+            # the dense rendering of the same network compiles: a name only the cuSPARSE rendering lacks / repeats
+            return [(f"cuda-batch/does-not-compile/{cls}", f"cusparse sources (host emulation): {str(e)[-500:]}")], info
+        raise RuntimeError(f"host emulation of the cuSPARSE sources does not compile (shim gap?): {str(e)[-800:]}")
     rc, out, err = build.run_driver(exe_d, serial_script(cells, ys), dense_proj.path)
     if rc != 0:
         return [("cuda-batch/dense-reference-crashed", err[-400:])], info
